@@ -523,7 +523,7 @@ inline J plan_c01(uint64_t verif_seed, uint64_t index, int tier) {
     cfg.long_strings = ro.chance(0.2);
     cfg.close_vertices = ro.chance(0.1);
     cfg.simple_polys_only = max_points > 4;  // fracturing is only defined for simple polygons
-    cfg.dangling = false;
+    cfg.dangling = ro.chance(0.15);          // references to cells that were never added to the library
     model::MLib m = gen::library(rm, cfg);
     isolate_region_tags(m, max_points);
     J models = J::arr();
